@@ -16,7 +16,7 @@ from checks import C01
 def gen_cases(ctx, n_grammars, n_inputs):
     rng = ctx.rng
     cases = [(g, G.inputs_for(rng, g, n_inputs * 2)) for g in G.classic_corpus() if g.is_reduced()]
-    for src in G.gc_corpus()[:ctx.n(40, 120)]:
+    for src in G.gc_chain_corpus()[:ctx.n(15, 60)] + G.gc_corpus()[:ctx.n(40, 120)]:
         g = G.from_text(src)
         if g.is_reduced() and not g.derives_cycle():
             ctx.count("family_gc_corpus")
